@@ -10,7 +10,7 @@ EXPLANATION = (
     'path; (D5) the convergence test is |est|*||f|| < tol*max(eps^(2/3),|theta|) over the first nev entries, as a normal '
     'form of the assignment. (D6) the cached residual norm used by the convergence test tracks the residual vector, the sub-diagonal entry is zero exactly on '
     'breakdown paths, and the factorization is resumed at its own dimension on every init() / compute() history '
-    '(pairing rule shared with C07). Does NOT decide residual sizes, orthonormality or any floating-point magnitude.')
+    '(pairing rule shared with C07). Every reader of the stored Ritz values / estimates / vectors in compute() is preceded on every path from entry by the member that rebuilds them from H under the selection rule of this call (a compute() that follows another compute() never works on the re-ordered, possibly back-transformed values the earlier call left). Does NOT decide residual sizes, orthonormality or any floating-point magnitude.')
 ASSUMPTIONS = ['Eigen kernels and std::sort are correct', 'instantiations listed in drivers/ are representative of every OpType']
 
 BASE = 'Spectra::HermEigsBase'
@@ -22,6 +22,7 @@ def run(ctx):
     fz.resumed_at_own_dimension(ctx, BASE)
     fz.subdiagonal_on_breakdown(ctx)
     eigsbase.flag_freshness(ctx, BASE)
+    eigsbase.ritz_data_of_current_call(ctx, BASE)
     eigsbase.coherent_permutation(ctx, BASE)
     eigsbase.coherent_retrieve(ctx, BASE)
     eigsbase.convergence_test_shape(ctx, BASE)
